@@ -114,7 +114,9 @@ def gen_u64(rng):
 
 
 METAS = ['{}', '{"a":1}', '{"hello":"world"}', '{"k":[1,2,3],"n":{"x":null}}', '{"s":"\\u00e9 \\" }"}',
-         '{"long":"' + "x" * 120 + '"}', '{ "spaced" : true }', '{"n":-1.5e3}']
+         '{"long":"' + "x" * 120 + '"}', '{ "spaced" : true }', '{"n":-1.5e3}',
+         # user data is data: printf conversions in it must come out as they went in
+         '{"laser":"50% duty"}', '{"fmt":"%s %d %n %%"}', '{"p":"100%"}', '{"%s%s%s%s":"%p%p"}', '{"w":"%5$s %*d %lu"}']
 
 
 def gen_meta(rng):
